@@ -93,6 +93,7 @@ type (
 
 		info       ClientInfo
 		statusFlag int32
+		takenFlag  int32 // set when a newer connection with the same client id has replaced this one
 		writeCh    chan packets.ControlPacket
 		done       chan struct{}
 
@@ -296,18 +297,35 @@ func (c *Client) close() {
 	}
 }
 
+func (c *Client) setTakenOver() {
+	atomic.StoreInt32(&c.takenFlag, 1)
+}
+
+func (c *Client) takenOver() bool {
+	return atomic.LoadInt32(&c.takenFlag) == 1
+}
+
 func (c *Client) disconnected() bool {
 	return atomic.LoadInt32(&c.statusFlag) == Disconnected
 }
 
 func (c *Client) closeAndDelSession() {
-	c.broker.sessMgr.delLocal(c.info.cid)
-	if c.session.cleanSession() {
-		c.broker.sessMgr.delDB(c.info.cid)
-	}
-
 	topics, _, _ := c.session.allSubscribes()
-	c.broker.topicMgr.unsubscribe(topics, c.info.cid)
+
+	// a connection that has been taken over by a newer connection with the
+	// same client id must leave the session, the subscriptions and the stored
+	// session alone: they belong to the newer connection now. The broker lock
+	// makes the check and the clean-up atomic with respect to handleConn.
+	b := c.broker
+	b.Lock()
+	if cur, ok := b.clients[c.info.cid]; !c.takenOver() && (!ok || cur == c) {
+		b.sessMgr.delLocal(c.info.cid)
+		if c.session.cleanSession() {
+			b.sessMgr.delDB(c.info.cid)
+		}
+		b.topicMgr.unsubscribe(topics, c.info.cid)
+	}
+	b.Unlock()
 
 	c.close()
 }
